@@ -4,3 +4,5 @@ import Pixman.Spec.Canon
 import Pixman.Props.C05
 import Pixman.Props.C06
 import Pixman.Props.C07
+import Pixman.Model.Glyph
+import Pixman.Props.C17
